@@ -125,7 +125,7 @@ func c29CreateIfAbsent(p *core.Program, r *core.Report) {
 						if reads[g] {
 							return []flow.State{s | bChecked}
 						}
-						if decls[g] != nil && g != fn && core.RecvName(decls[g]) == reg.typ {
+						if decls[g] != nil && g != fn && core.RecvName(decls[g]) == reg.typ && !setup[core.FuncName(decls[g])] && !strings.HasPrefix(g.Name(), "open") && g.Name() != "Open" {
 							cs := analyse(g, depth+1)
 							if cs.needsEntry && s&bChecked == 0 {
 								if s&bLocked != 0 {
